@@ -20,7 +20,10 @@ Files == <<
      Txt("# Copyright (c) 2020-2023 CRS project. All rights reserved."),
      Txt("#  OWASP CRS ver.9.9.9"), Txt("    ver:\"OWASP_CRS/9.9.9\",\\") >>,
   << Txt("# no markers in this file"), Txt(""), Txt("SecAction \"id:900990,setvar:tx.crs_setup_ver=1\"") >>,
-  << Sig("4.7.0", "\""), Sig("4.7.0", "\" # trailing"), Setup("  \"id:1,", "470", ",pass\""), Setup("", "470", "") >>
+  << Sig("4.7.0", "\""), Sig("4.7.0", "\" # trailing"), Setup("  \"id:1,", "470", ",pass\""), Setup("", "470", "") >>,
+  \* markers inside commented-out directives (crs-setup.conf.example is mostly such blocks)
+  << Hdr("CRS", "4.3.0"), Txt("#SecAction \\"), Txt("#    \"id:900990,\\"), Ver("#    ", "4.3.0", "',\\"),
+     Setup("#    ", "430", "\""), Ver("# ", "4.3.0", "'\""), Cpy("2024", "CRS") >>
 >>
 
 Init == /\ fileIx \in 1..Len(Files) /\ cur = Files[fileIx] /\ hist = <<>> /\ outs = <<>>
